@@ -29,6 +29,7 @@ def run(repo, run, tier):
     proposal_store(repo, run)
     final_step(repo, run)
     preloop_store(repo, run)
+    guard(repo, run)
 
 
 def kind_rules(repo, run, rid="C04.1"):
@@ -213,3 +214,12 @@ def preloop_store(repo, run):
             run.report("C04.6", DS, st, "the requested step is overwritten before the loop under a condition that is not `|self.dt| > |tf - t[counter]|` (atoms: %s): "
                                         "for some sign of the times or direction a run with |dt| <= |span| no longer takes steps of the requested size" % (
                                             [a.split("@")[0] for a in atoms],))
+
+
+def guard(repo, run):
+    """whatever the direction of integration: the number of steps a call takes is decided by the loop guard, which must not depend on how dt happens to be
+    oriented when it is evaluated (the dt setter orients by the system's own span, not by the call's target)"""
+    from .c03 import loop_guard
+    rid = run.rule("C04.7", "the step loop's guard is the magnitude test |tf - t[counter]| >= epsilon (no sign of dt, no signed remaining time)", floor=1)
+    m = IntegrateModel(repo)
+    loop_guard(run, rid, m, m.canon, "C04.7")
